@@ -3,6 +3,7 @@
 package c18
 
 import (
+	"fmt"
 	"runtime"
 	"sync"
 	"testing"
@@ -11,7 +12,7 @@ import (
 )
 
 func genParams(i int, rng *core.Rand, procs int) hparams {
-	p := hparams{Idx: i, Clients: 4 + rng.Intn(5), Ops: 30, Yield: core.Pick(rng, []int{0, 10, 30, 60}), Procs: procs}
+	p := hparams{Idx: i, Clients: 4 + rng.Intn(5), Ops: 30, Yield: core.Pick(rng, []int{0, 10, 30, 60}), Procs: procs, Active: nRes}
 	switch x := rng.Intn(10); {
 	case x < 5:
 		p.Backend = "inmem"
@@ -88,9 +89,26 @@ func TestZZVerifC18(t *testing.T) {
 		}
 		hs := make([]*hist, hi-lo)
 		runtime.GOMAXPROCS(params[lo].Procs)
-		parallel(4, hi-lo, func(i int) { hs[i] = runHistory(params[lo+i], rngs[lo+i]) })
+		parallel(4, hi-lo, func(i int) {
+			h, deadlock, dump := runHistoryGuarded(params[lo+i], rngs[lo+i])
+			hs[i] = h
+			if h != nil {
+				return
+			}
+			run.Eval()
+			if deadlock != "" {
+				run.Violation("C18:restore:deadlock:commit-vs-watchlist-lock-order", fmt.Sprintf("history %d (%s, GOMAXPROCS %d) never finished: %s; every later operation on the store blocks for ever", params[lo+i].Idx, params[lo+i].Backend, params[lo+i].Procs, deadlock),
+					map[string]any{"params": params[lo+i], "blocked_goroutines": dump})
+			} else {
+				run.Inconclusive(fmt.Sprintf("history %d: watchdog fired without a provable lock cycle in the code under test: %.2000s", params[lo+i].Idx, dump))
+			}
+		})
 		runtime.GOMAXPROCS(ncpu)
-		parallel(ncpu, hi-lo, func(i int) { checkHistory(run, hs[i]) })
+		parallel(ncpu, hi-lo, func(i int) {
+			if hs[i] != nil {
+				checkHistory(run, hs[i])
+			}
+		})
 		lo = hi
 	}
 	run.CountN("histories", n)
